@@ -276,6 +276,29 @@ func (s *InMemoryStore) UpdateOffsets(ctx context.Context, topic string, partiti
 	return nil
 }
 
+// maxTopicNameLength is the Kafka limit on topic name length.
+const maxTopicNameLength = 249
+
+// validTopicName reports whether name is a legal Kafka topic name: 1..249
+// characters from [a-zA-Z0-9._-] and neither "." nor "..". Topic names are
+// embedded in S3 object keys, etcd keys and map keys; a name with a path
+// separator, a dot segment or ':' would alias the keys of another topic.
+func validTopicName(name string) bool {
+	if name == "" || name == "." || name == ".." || len(name) > maxTopicNameLength {
+		return false
+	}
+	for i := 0; i < len(name); i++ {
+		c := name[i]
+		switch {
+		case c >= 'a' && c <= 'z', c >= 'A' && c <= 'Z', c >= '0' && c <= '9':
+		case c == '.' || c == '_' || c == '-':
+		default:
+			return false
+		}
+	}
+	return true
+}
+
 func partitionKey(topic string, partition int32) string {
 	return fmt.Sprintf("%s:%d", topic, partition)
 }
@@ -291,7 +314,7 @@ func (s *InMemoryStore) CreateTopic(ctx context.Context, spec TopicSpec) (*proto
 		return nil, ctx.Err()
 	default:
 	}
-	if spec.Name == "" || spec.NumPartitions <= 0 {
+	if !validTopicName(spec.Name) || spec.NumPartitions <= 0 {
 		return nil, ErrInvalidTopic
 	}
 	if spec.ReplicationFactor <= 0 {
